@@ -196,7 +196,7 @@ func (g *fgen) genFheight(n int) {
 			case <-errC:
 				got = append(got, "e")
 				break loop
-			case <-time.After(2 * time.Second):
+			case <-time.After(60 * time.Second):
 				got = append(got, "stall")
 				break loop
 			}
@@ -266,9 +266,10 @@ func (r *watchRun) fetchTick(sc tickScript, allowMalformed bool) {
 	case us := <-r.evA:
 		out = renderUnconfirmeds(us)
 		r.evB <- us
-		r.evB <- nil
-		<-n.arrive
-		r.parked = true
+		if r.barrier() {
+			<-n.arrive
+			r.parked = true
+		}
 	case <-r.errC:
 		r.exited = true
 	case <-r.panicC:
